@@ -24,7 +24,7 @@ From HyV Require Import Base.Text Scope.Sorting Scope.SetDecl.
 From Coq Require Import Permutation.
 
 Inductive pscope :=
-| PFn (defined : fset)          (* ScopeFn / ScopeGen: function, class or comprehension scope *)
+| PFn (func : bool) (defined : fset)   (* ScopeFn / ScopeGen; func = false for a class body (the walk does not look at it) *)
 | PLet (keys : list text)       (* ScopeLet: the bound (source) names *)
 | PGlobal (defined : fset).
 
@@ -51,7 +51,7 @@ Fixpoint walk (chain : list pscope) (defined : fset) (undefined names : list tex
         if ssubset undefined gdef
         then OGlobal undefined :: match defined with [] => [] | _ => [ONonlocal (names_of_set perm ord defined)] end
         else fallthrough names
-    | PFn d :: rest => let '(df, un) := step_sets d defined undefined in walk rest df un names
+    | PFn _ d :: rest => let '(df, un) := step_sets d defined undefined in walk rest df un names
     | PLet k :: rest => let '(df, un) := step_sets k defined undefined in walk rest df un names
     end
   end.
@@ -68,7 +68,7 @@ Theorem walk_sorted_perm_independent perm1 perm2 : perm_ok perm1 -> perm_ok perm
 Proof.
   intros H1 H2 chain. induction chain as [|sc rest IH]; intros defined undefined names.
   - destruct undefined; reflexivity.
-  - destruct undefined as [|u us]; [reflexivity|]. destruct sc as [d|k|g]; cbn [walk].
+  - destruct undefined as [|u us]; [reflexivity|]. destruct sc as [fb d|k|g]; cbn [walk].
     + destruct (step_sets d defined (u :: us)) as [df un]. apply IH.
     + destruct (step_sets k defined (u :: us)) as [df un]. apply IH.
     + destruct (ssubset (u :: us) g); [|reflexivity]. destruct defined; [reflexivity|].
@@ -81,7 +81,7 @@ Proof. intros H1 H2 chain names. apply walk_sorted_perm_independent; assumption.
 
 (* With list(defined) it does: two names bound in an enclosing function and one module-level name. *)
 Definition nm_a : text := [97]. Definition nm_b : text := [98]. Definition nm_g : text := [103].
-Definition witness_chain : list pscope := [PFn [nm_a; nm_b]; PGlobal [nm_g]].
+Definition witness_chain : list pscope := [PFn true [nm_a; nm_b]; PGlobal [nm_g]].
 Definition witness_names : list text := [nm_a; nm_b; nm_g].
 Definition perm_id (l : list text) : list text := l.
 Definition perm_rev (l : list text) : list text := rev l.
@@ -106,4 +106,162 @@ Theorem visit_outervar_perm_independent_iff_sorted ord :
 Proof.
   split; intros ->; [intros; apply visit_outervar_sorted_perm_independent; assumption
                     | exact visit_outervar_list_perm_dependent].
+Qed.
+
+(* ------------------------------------------------------------------ C07: what the walk computes *)
+
+Definition has_of (sc : pscope) : fset := match sc with PFn _ d => d | PLet k => k | PGlobal d => d end.
+Definition is_pglobal (sc : pscope) : bool := match sc with PGlobal _ => true | _ => false end.
+(* some scope of [inner] binds x *)
+Definition inner_has (inner : list pscope) (x : text) : bool := existsb (fun sc => smem x (has_of sc)) inner.
+
+Fixpoint defined_after (inner : list pscope) (defined : fset) (undefined : list text) : fset :=
+  match inner with
+  | [] => defined
+  | sc :: r => let '(df, un) := step_sets (has_of sc) defined undefined in defined_after r df un
+  end.
+Fixpoint undefined_after (inner : list pscope) (undefined : list text) : list text :=
+  match inner with
+  | [] => undefined
+  | sc :: r => undefined_after r (filter (fun x => negb (smem x (has_of sc))) undefined)
+  end.
+
+Lemma walk_nil_undefined perm ord chain defined names : walk perm ord chain defined [] names = fallthrough names.
+Proof. destruct chain; reflexivity. Qed.
+
+Lemma walk_inner perm ord inner : forallb (fun sc => negb (is_pglobal sc)) inner = true ->
+  forall rest defined undefined names,
+    walk perm ord (inner ++ rest) defined undefined names
+    = walk perm ord rest (defined_after inner defined undefined) (undefined_after inner undefined) names.
+Proof.
+  induction inner as [|sc r IH]; intros Hng rest defined undefined names; [reflexivity|].
+  cbn [forallb] in Hng. apply andb_true_iff in Hng. destruct Hng as [Hsc Hr].
+  destruct undefined as [|u us].
+  - cbn [app]. rewrite walk_nil_undefined.
+    assert (E : undefined_after (sc :: r) [] = []).
+    { clear. generalize (sc :: r). intro l. induction l; cbn; auto. }
+    rewrite E. rewrite walk_nil_undefined. reflexivity.
+  - destruct sc as [fb d|k|g]; [| |discriminate Hsc]; cbn [app walk defined_after undefined_after has_of step_sets];
+      rewrite (IH Hr); reflexivity.
+Qed.
+
+Lemma filter_filter {A} (f g : A -> bool) l : filter f (filter g l) = filter (fun x => g x && f x) l.
+Proof.
+  induction l as [|x r IH]; [reflexivity|]. cbn [filter]. destruct (g x); cbn [andb filter]; [|exact IH].
+  destruct (f x); rewrite IH; reflexivity.
+Qed.
+
+Lemma undefined_after_filter inner : forall undefined,
+  undefined_after inner undefined = filter (fun x => negb (inner_has inner x)) undefined.
+Proof.
+  induction inner as [|sc r IH]; intros undefined; cbn [undefined_after].
+  - induction undefined as [|a l IHl]; [reflexivity|]. cbn [filter inner_has existsb negb]. f_equal. exact IHl.
+  - rewrite IH, filter_filter. apply filter_ext. intros x. cbn [inner_has existsb]. fold (inner_has r x).
+    destruct (smem x (has_of sc)), (inner_has r x); reflexivity.
+Qed.
+
+Lemma smem_sadd x y s : smem x (sadd y s) = text_eqb x y || smem x s.
+Proof.
+  unfold sadd. destruct (smem y s) eqn:E.
+  - destruct (text_eqb x y) eqn:E2; [|reflexivity]. apply text_eqb_eq in E2. subst. rewrite E. reflexivity.
+  - unfold smem. rewrite existsb_app. cbn. rewrite orb_false_r. apply orb_comm.
+Qed.
+
+Lemma smem_supdate x l : forall s, smem x (supdate s l) = smem x s || smem x l.
+Proof.
+  induction l as [|y r IH]; intros s; cbn [supdate fold_left].
+  - rewrite orb_false_r. reflexivity.
+  - change (fold_left (fun acc z => sadd z acc) r (sadd y s)) with (supdate (sadd y s) r).
+    rewrite IH, smem_sadd. cbn [smem existsb]. fold (smem x r).
+    destruct (text_eqb x y), (smem x s), (smem x r); reflexivity.
+Qed.
+
+Lemma smem_filter x f l : (forall a b, text_eqb a b = true -> f a = f b) -> smem x (filter f l) = smem x l && f x.
+Proof.
+  intros Hf. induction l as [|y r IH]; [reflexivity|]. cbn [filter].
+  destruct (f y) eqn:E; cbn [smem existsb]; fold (smem x r); fold (smem x (filter f r)); rewrite ?IH.
+  - destruct (text_eqb x y) eqn:E2; [|reflexivity]. rewrite (Hf _ _ E2), E. reflexivity.
+  - destruct (text_eqb x y) eqn:E2; [|reflexivity]. rewrite (Hf _ _ E2), E. cbn. rewrite andb_false_r. reflexivity.
+Qed.
+
+Lemma text_eqb_smem_compat s a b : text_eqb a b = true -> smem a s = smem b s.
+Proof. intros E. apply text_eqb_eq in E. subst. reflexivity. Qed.
+
+Lemma inner_has_compat inner a b : text_eqb a b = true -> inner_has inner a = inner_has inner b.
+Proof. intros E. apply text_eqb_eq in E. subst. reflexivity. Qed.
+
+(* the set `defined` after walking the inner scopes: the declared names some inner scope binds *)
+Lemma defined_after_spec inner : forall defined undefined x,
+  smem x (defined_after inner defined undefined) = smem x defined || (smem x undefined && inner_has inner x).
+Proof.
+  induction inner as [|sc r IH]; intros defined undefined x; cbn [defined_after inner_has existsb].
+  - rewrite andb_false_r, orb_false_r. reflexivity.
+  - cbn [step_sets]. rewrite IH, smem_supdate.
+    rewrite !smem_filter by (intros a b E; rewrite (text_eqb_smem_compat _ _ _ E); reflexivity).
+    fold (inner_has r x).
+    destruct (smem x defined), (smem x undefined), (smem x (has_of sc)), (inner_has r x); reflexivity.
+Qed.
+
+(* C07 outer_resolution: for a (nonlocal names) whose scope has the ancestors inner ++ [module]:
+   the names no inner scope binds go, in declaration order, into a Global statement (provided the
+   module defines them all -- otherwise a plain Nonlocal is emitted and Python reports the error);
+   the names some inner function/class/let scope binds go into the Nonlocal statement. *)
+Theorem outer_resolution perm ord inner g names :
+  forallb (fun sc => negb (is_pglobal sc)) inner = true ->
+  let gl := filter (fun x => negb (inner_has inner x)) names in
+  let nl := defined_after inner [] names in
+  visit_outervar perm ord (inner ++ [PGlobal g]) names =
+    match gl with
+    | [] => fallthrough names
+    | _ :: _ => if ssubset gl g
+                then OGlobal gl :: match nl with [] => [] | _ :: _ => [ONonlocal (names_of_set perm ord nl)] end
+                else fallthrough names
+    end
+  /\ (forall x, smem x nl = smem x names && inner_has inner x).
+Proof.
+  intros Hng gl nl. split.
+  - unfold visit_outervar. rewrite (walk_inner perm ord inner Hng). rewrite undefined_after_filter.
+    fold gl. fold nl. destruct gl; reflexivity.
+  - intros x. unfold nl. rewrite defined_after_spec. reflexivity.
+Qed.
+
+Example outer_resolution_example :
+  visit_outervar perm_id OSorted [PLet [nm_b]; PFn true [nm_a]; PGlobal [nm_g]] [nm_g; nm_a; nm_b]
+  = [OGlobal [nm_g]; ONonlocal [nm_a; nm_b]].
+Proof. vm_compute. reflexivity. Qed.
+
+(* a name bound only at module level never ends up in a Nonlocal statement together with a Global one *)
+Corollary module_names_become_global perm ord inner g names x :
+  forallb (fun sc => negb (is_pglobal sc)) inner = true ->
+  ssubset (filter (fun y => negb (inner_has inner y)) names) g = true ->
+  In x names -> inner_has inner x = false ->
+  exists gl rest, visit_outervar perm ord (inner ++ [PGlobal g]) names = OGlobal gl :: rest /\ In x gl.
+Proof.
+  intros Hng Hsub Hin Hno. destruct (outer_resolution perm ord inner g names Hng) as [E _].
+  assert (Hx : In x (filter (fun y => negb (inner_has inner y)) names)).
+  { apply filter_In. split; [exact Hin | rewrite Hno; reflexivity]. }
+  destruct (filter (fun y => negb (inner_has inner y)) names) as [|h t] eqn:F; [destruct Hx|].
+  rewrite Hsub in E. eexists. eexists. split; [exact E | exact Hx].
+Qed.
+
+(* Python binds `nonlocal x` in the nearest enclosing *function* scope; class bodies do not count.
+   The walk treats a class body like a function, so a name that is a class attribute and otherwise
+   bound only at module level is declared `nonlocal` (Python: no binding for nonlocal) instead of
+   `global`.  Full statement and its refutation: *)
+Definition function_binds (chain : list pscope) (x : text) : bool :=
+  existsb (fun sc => match sc with PFn true d => smem x d | PLet k => smem x k | _ => false end) chain.
+
+Definition nonlocal_names_have_function_binding_full : Prop :=
+  forall perm ord chain names l x, In (ONonlocal l) (visit_outervar perm ord chain names) -> In x l ->
+    (exists g, In (PGlobal g) chain /\ ssubset names (fold_right (fun sc acc => has_of sc ++ acc) [] chain) = true) ->
+    function_binds chain x = true.
+
+Theorem nonlocal_names_have_function_binding_refuted :
+  exists perm ord chain names l x, In (ONonlocal l) (visit_outervar perm ord chain names) /\ In x l /\
+    (exists g, In (PGlobal g) chain /\ ssubset names (fold_right (fun sc acc => has_of sc ++ acc) [] chain) = true) /\
+    function_binds chain x = false.
+Proof.
+  exists perm_id, OSorted, [PFn false [nm_a]; PGlobal [nm_a]], [nm_a], [nm_a], nm_a.
+  split; [left; reflexivity|]. split; [left; reflexivity|].
+  split; [exists [nm_a]; split; [right; left; reflexivity | reflexivity] | reflexivity].
 Qed.
